@@ -335,8 +335,6 @@ def steps_for(info, cand, tier):
         return S
     S.append(mk("update", "-makeupdate", "update", [["-depth", "i", "depth", "3"], ["-type", "s", "type", "level"]], of=True, writes=True, out="matrix"))
     if th:
-        S.append(mk("update+aniso", "-makeupdate", "update", [["-depth", "i", "depth", "4"], ["-type", "s", "type", "iptotal"]],
-                    [["-anisotropyfile", "iv", "aniso", 1, d, [2, 1][:d]]], of=True, writes=True, out="matrix"))
         S.append(mk("update+curved", "-mu", "update", [["-dt", "i", "depth", "3"], ["-tt", "s", "type", "ipcurved"]],
                     [["-af", "iv", "aniso", 1, 2 * d, ([1, 2][:d] + [0, 1][:d])]], of=True, writes=True, out="matrix"))
     S.append(mk("setconformal", "-setconformal", "setconformal", [["-conformaltype", "s", "ctype", "asin"]],
@@ -398,11 +396,9 @@ def steps_for(info, cand, tier):
                     [["-valsfile", "m", "scale", npnt, 1, [1.0 + 0.5 * (i % 3) for i in range(npnt)]]], of=True, writes=True, out="matrix"))
         S.append(mk("getconstructpnts+aniso", "-gcp", "getconstructpnts", [["-tt", "s", "type", "level"], ["-tol", "d", "tol", "0.01"], ["-rt", "s", "reftype", "classic"]],
                     [["-af", "iv", "aniso", 1, d, [1, 2][:d]], ["-lf", "iv", "limits", 1, d, [3, 3][:d]]], of=True, writes=True, out="matrix"))
-        S.append(mk("getpoly+q", "-getpoly", "getpoly", [["-tt", "s", "type", "qptotal"]], of=True, out="matrix"))
         S.append(mk("evaluate+print", "-e", "evaluate", mats=[xm], out="matrix", pr=True))
         S.append(mk("integrate+print", "-i", "integrate", out="matrix", pr=True))
         S.append(mk("getcoefficients+print", "-gc", "getcoefficients", out="matrix", pr=True))
-        S.append(mk("evaluate~xfmt", "-e", "evaluate", mats=[xm], of=True, out="matrix", matfmt="other"))
     return S
 
 
@@ -957,6 +953,7 @@ def main():
     states = {}      # (fmt, key) -> dict(path=file, info, cand, script)
     frontier = []
     depth_done = -1
+    alpha_max = 0
     for depth in range(0, MAXDEPTH + 1):
         units_total += 1
         t0 = time.time()
@@ -967,7 +964,9 @@ def main():
             tasks = []
             for sk in frontier:
                 s = states[sk]
-                for st in steps_for(s["info"], s["cand"], TIER):
+                sts = steps_for(s["info"], s["cand"], TIER)
+                alpha_max = max(alpha_max, len(sts))
+                for st in sts:
                     tasks.append((sk, st, sk[0]))
         if past_deadline():
             emit({"t": "incomplete", "unit": "depth-%d" % depth})
@@ -1039,7 +1038,7 @@ def main():
     emit({"t": "note", "text": "distinct grid-file states: %d (%d binary, %d ascii); scripts completed up to make + %d command(s)" % (len(states), nb, len(states) - nb, max(depth_done, 0))})
     emit({"t": "summary", "units_total": units_total, "units_done": units_done, "exhaustive": exhaustive and depth_done == MAXDEPTH,
           "bound": "C16 tier=%s: all scripts make* (%d configurations x 2 grid formats) + up to %d command(s) over an alphabet of %s commands per state; completed depth %d; %d states, %d transitions"
-                   % (TIER, len(make_lattice(TIER)), MAXDEPTH, "~33" if TIER == "quick" else "~52", depth_done, len(states), book.transitions)})
+                   % (TIER, len(make_lattice(TIER)), MAXDEPTH, "up to %d" % alpha_max, depth_done, len(states), book.transitions)})
     shutil.rmtree(SCRATCH, ignore_errors=True)
     return 0
 
